@@ -148,12 +148,21 @@ class Crate:
             self._by_path.setdefault(b["path"], []).append(b)
 
     def inlined(self):
-        """The helper-inlined view of this crate (pv/inline.py), built on first use."""
-        if getattr(self, "_inlined", None) is None:
+        """A helper-inlined view of this crate (pv/inline.py), built on first use.  VIEW selects the variant:
+        "inlined" (single-call-site helpers only), "inlined-d" (+ Result/Option combinators written out as matches),
+        "inlined-m" (+ small helpers with several call sites in which the raw view located a violation),
+        "inlined+" (both)."""
+        multi = VIEW in ("inlined-m", "inlined+")
+        desugar = VIEW in ("inlined-d", "inlined+")
+        attr = "_inl_%d%d" % (multi, desugar)
+        if getattr(self, attr, None) is None:
             from . import inline
-            self._inlined = Crate(inline.inlined_doc(self, protected=LOOKED_UP - UNPROTECT, multi=UNPROTECT), self.file)
-            self._inlined._inlined = self._inlined
-        return self._inlined
+            v = Crate(inline.inlined_doc(self, protected=LOOKED_UP - UNPROTECT, multi=(UNPROTECT if multi else ()),
+                                         desugar=desugar, desugar_in=UNPROTECT), self.file)
+            for a in ("_inl_00", "_inl_01", "_inl_10", "_inl_11"):
+                setattr(v, a, v)
+            setattr(self, attr, v)
+        return getattr(self, attr)
 
     def fn(self, path):
         """The unique body with this def-path (None if absent)."""
@@ -227,7 +236,7 @@ class Facts:
             return None
         # prefer the richest feature set (workspace member build, not the build-dependency one)
         c = sorted(cs, key=lambda c: -len(c.features))[0]
-        return c.inlined() if VIEW == "inlined" else c
+        return c.inlined() if VIEW != "raw" else c
 
 
 _facts = {}
@@ -310,5 +319,5 @@ def harness_crates(name, crates, repo=None, subst=None):
         with open(f) as fh:
             doc = json.load(fh)
         c = Crate(doc, f)
-        out.setdefault(doc["crate"], []).append(c.inlined() if VIEW == "inlined" else c)
+        out.setdefault(doc["crate"], []).append(c.inlined() if VIEW != "raw" else c)
     return out
